@@ -232,7 +232,7 @@ Print Assumptions C07_raise_stage_refuted.
    with the asynchronous event step [qstep] (one awaited AsyncEvent._trigger: the stages of the event and what
    awaiting it gave).  queued=True: key 0, the one shared deque; queued='model': key S m, the deque of model
    m.  [targets_ok]: the triggers awaited from callbacks go to the deque being drained — always so for
-   queued=True (C07_queue_shared), and for queued='model' exactly when callbacks trigger their own model
+   queued=True (C07_queue_shared), where callbacks may also call remove_model, and for queued='model' exactly when callbacks trigger their own model
    (a trigger on another model whose deque is idle is processed inside the callback: outside the model).
    [R key w s]: the abstract queue is the deque [key], same arrival counter. *)
 Theorem C07_queue_refines :
@@ -326,13 +326,27 @@ Theorem C07_queue_deferred :
     qget (aw_queues w) (qkey md m) = h :: tl ->
     atop_trigger mc ev suspf md fuel w m e a =
       Some ([], AwRet true,
-            mkAW (aw_states w) (qset (aw_queues w) (qkey md m) (h :: tl ++ [mkAE (aw_next w) m e a])) (S (aw_next w))).
+            mkAW (aw_states w) (qset (aw_queues w) (qkey md m) (h :: tl ++ [mkAE (aw_next w) m e a])) (S (aw_next w)) (aw_models w)).
 Proof. exact atop_busy. Qed.
 Print Assumptions C07_queue_deferred.
 
+(* AsyncMachine.remove_model called from a callback (queued=True; a call with a LIST of models has the effect of
+   the single calls in sequence, each covered by C07_queue_refines via Queue.apply_action): the event in progress
+   stays at the head, exactly the pending events of the removed model disappear, everything else is untouched *)
+Theorem C07_queue_remove_exact :
+  forall (m : model) (w : aworld) (h : aentry) (tl : list aentry),
+    qget (aw_queues w) 0 = h :: tl -> existsb (Nat.eqb m) (aw_models w) = true ->
+    let w' := aremove_model QAll m w in
+    qget (aw_queues w') 0 = h :: filter (fun x => negb (Nat.eqb (ae_model x) m)) tl /\
+    (forall x, In x (qget (aw_queues w') 0) <-> x = h \/ (In x tl /\ ae_model x <> m)) /\
+    aw_next w' = aw_next w /\ aw_states w' = aw_states w /\
+    aw_models w' = filter (fun x => negb (Nat.eqb x m)) (aw_models w).
+Proof. exact aremove_exact. Qed.
+Print Assumptions C07_queue_remove_exact.
+
 (* non-vacuity (queued='model'): a callback of the first event awaits two triggers on its own model *)
 Example C07_queue_example :
-  match atop_trigger mc_q ev_q (fun _ _ => 1) QPerModel 10 (mkAW [(0, 0)] [] 0) 0 0 100 with
+  match atop_trigger mc_q ev_q (fun _ _ => 1) QPerModel 10 (mkAW [(0, 0)] [] 0 [0]) 0 0 100 with
   | Some (bs, r, w') => abids bs = [0; 1; 2] /\ map (fun b => ae_payload (ab_entry b)) bs = [100; 1000; 1001] /\
                         r = AwRet true /\ aw_states w' = [(0, 1)] /\ aw_next w' = 3
   | None => False
